@@ -444,7 +444,9 @@ class Histogram():
 
     def compute(self):
         """Yield histogram with context."""
-        yield (self._hist, self._cur_context)
+        # deep copy, otherwise downstream updates of the yielded context
+        # would change the context of the filled value and later results
+        yield (self._hist, copy.deepcopy(self._cur_context))
 
     def reset(self):
         """Reset the histogram.
